@@ -529,6 +529,7 @@ func outcomeStr(v, p bool) string {
 type numVal struct {
 	F     float64
 	IsInt bool // dynamic kind int (otherwise float64)
+	Other bool // a value of a non-numeric kind (only kind tests apply to it)
 }
 
 type numEnv struct {
@@ -552,10 +553,10 @@ func (e *numEnv) num(t Term) (numVal, bool) {
 		switch x.Val.Kind() {
 		case constant.Int:
 			f, _ := constant.Float64Val(constant.ToFloat(x.Val))
-			return numVal{f, true}, true
+			return numVal{F: f, IsInt: true}, true
 		case constant.Float:
 			f, _ := constant.Float64Val(x.Val)
-			return numVal{f, false}, true
+			return numVal{F: f, IsInt: false}, true
 		}
 	case TProj:
 		if a, ok := x.X.(TAssert); ok && x.K == 0 {
@@ -580,9 +581,9 @@ func (e *numEnv) num(t Term) (numVal, bool) {
 			} else {
 				f = float64(int64(f))
 			}
-			return numVal{f, true}, true
+			return numVal{F: f, IsInt: true}, true
 		case b.Info()&types.IsFloat != 0:
-			return numVal{v.F, false}, true
+			return numVal{F: v.F, IsInt: false}, true
 		}
 	case TBin:
 		a, ok1 := e.num(x.X)
@@ -590,16 +591,16 @@ func (e *numEnv) num(t Term) (numVal, bool) {
 		if ok1 && ok2 {
 			switch x.Op {
 			case token.ADD:
-				return numVal{a.F + b.F, a.IsInt && b.IsInt}, true
+				return numVal{F: a.F + b.F, IsInt: a.IsInt && b.IsInt}, true
 			case token.SUB:
-				return numVal{a.F - b.F, a.IsInt && b.IsInt}, true
+				return numVal{F: a.F - b.F, IsInt: a.IsInt && b.IsInt}, true
 			case token.MUL:
-				return numVal{a.F * b.F, a.IsInt && b.IsInt}, true
+				return numVal{F: a.F * b.F, IsInt: a.IsInt && b.IsInt}, true
 			}
 		}
 	case TUn:
 		if v, ok := e.num(x.X); ok && x.Op == token.SUB {
-			return numVal{-v.F, v.IsInt}, true
+			return numVal{F: -v.F, IsInt: v.IsInt}, true
 		}
 	case TCall:
 		if x.Fun != nil && len(x.Args) == 2 {
@@ -609,14 +610,14 @@ func (e *numEnv) num(t Term) (numVal, bool) {
 				switch x.Fun.FullName() {
 				case "math.Min":
 					if a.F < b.F {
-						return numVal{a.F, false}, true
+						return numVal{F: a.F, IsInt: false}, true
 					}
-					return numVal{b.F, false}, true
+					return numVal{F: b.F, IsInt: false}, true
 				case "math.Max":
 					if a.F > b.F {
-						return numVal{a.F, false}, true
+						return numVal{F: a.F}, true
 					}
-					return numVal{b.F, false}, true
+					return numVal{F: b.F}, true
 				}
 			}
 		}
@@ -704,7 +705,7 @@ func (e *numEnv) kindIs(x Term, T types.Type) (bool, bool) {
 	if !ok {
 		return false, false
 	}
-	if T == nil {
+	if T == nil || v.Other {
 		return false, true
 	}
 	b, isB := T.Underlying().(*types.Basic)
